@@ -3,7 +3,7 @@
 tier="${1:-quick}"; shift
 names=("$@"); if [ ${#names[@]} -eq 0 ]; then names=($(ls /verif/seeded)); fi
 for n in "${names[@]}"; do
-  out=$(/verif/tools/seed_run.sh $n $tier 2>&1)
+  out=$(/verif/tools/seed_run_iso.sh $n $tier 2>&1)
   fp=$(echo "$out" | grep -o "fingerprint=[^ ]*" | head -2 | tr '\n' ' ')
   echo "$(echo "$out" | tail -1) | $fp"
 done
